@@ -80,6 +80,14 @@ Fixpoint nat_to_string_aux (fuel n : nat) (acc : string) : string :=
   end.
 Definition nat_to_string (n : nat) : string := nat_to_string_aux 20 n "".
 
+(** a call of sqlc.arg: the function name is an identifier, so its case does not matter (SQLC.ARG(x)) *)
+Definition arg_call (ts : list string) : option (string * list string) :=
+  match ts with
+  | a :: "." :: b :: "(" :: x :: ")" :: rest =>
+      if String.eqb (to_lower a) "sqlc" && String.eqb (to_lower b) "arg" then Some (x, rest) else None
+  | _ => None
+  end.
+
 (** sqlc.arg(x) / sqlc.arg('x') / @x  ->  $n, names numbered in order of first use *)
 Fixpoint rewrite_named (fuel : nat) (ts : list string) (names : list (string * nat)) : list string :=
   match fuel with
@@ -90,15 +98,17 @@ Fixpoint rewrite_named (fuel : nat) (ts : list string) (names : list (string * n
         | Some n => k names ("$" +++ nat_to_string n)
         | None => let n := S (List.length names) in k (names ++ [(x, n)]) ("$" +++ nat_to_string n)
         end in
-      match ts with
-      | "sqlc" :: "." :: "arg" :: "(" :: x :: ")" :: rest =>
-          number (unquote x) (fun names' t => t :: rewrite_named f rest names')
-      | "@" :: x :: rest =>
-          if match x with String c _ => is_word_char c | EmptyString => false end
-          then number x (fun names' t => t :: rewrite_named f rest names')
-          else "@" :: rewrite_named f (x :: rest) names
-      | t :: rest => t :: rewrite_named f rest names
-      | [] => []
+      match arg_call ts with
+      | Some (x, rest) => number (unquote x) (fun names' t => t :: rewrite_named f rest names')
+      | None =>
+          match ts with
+          | "@" :: x :: rest =>
+              if match x with String c _ => is_word_char c | EmptyString => false end
+              then number x (fun names' t => t :: rewrite_named f rest names')
+              else "@" :: rewrite_named f (x :: rest) names
+          | t :: rest => t :: rewrite_named f rest names
+          | [] => []
+          end
       end
   end.
 Definition expected_tokens (stmt_text : string) : list string :=
